@@ -33,6 +33,19 @@ def scratch_copy(repo=REPO):
     return tmp, dst
 
 
+def _family(prop, seed_dir):
+    """first path segment of the obligation that caught the seed when it was kept, e.g. 'PusTc.unpack' (None if unknown)"""
+    try:
+        rec = json.load(open(os.path.join(seed_dir, "meta.json")))["checks"][prop]
+        ids = [l.split("obligation=")[-1].split(" ")[0] for l in rec.get("lines", []) if l.startswith("VIOLATION")]
+        fam = ids[0].split("/")[0] if ids else None
+        if fam and fam.startswith("loop "):
+            fam = fam.split(" ")[1].split("#")[0]
+        return fam or None
+    except Exception:  # noqa
+        return None
+
+
 def run_seed(prop, seed_dir, timeout_s=3600):
     """-> (status, detail): 'caught' | 'missed' | 'undecided' | 'error' | 'stale' (patch no longer applies)"""
     tmp, dst = scratch_copy()
@@ -44,6 +57,15 @@ def run_seed(prop, seed_dir, timeout_s=3600):
             if p.returncode != 0:
                 return "stale", (p.stdout + p.stderr)[-300:]
         env = dict(os.environ, PYVC_REPO=dst, PYVC_EVIDENCE_DIR=os.path.join(tmp, "evidence"), PYVC_NO_CANARIES="1")
+        # first only the harness family that caught this change when it was kept (recorded in meta.json): an alarm there is an
+        # alarm of the check; if that family is quiet now the whole check decides
+        fam = _family(prop, seed_dir)
+        if fam:
+            p = subprocess.run([os.path.join(VERIF, "check"), prop, "--tier", "quick", "--only", fam], capture_output=True, text=True, env=env,
+                               timeout=timeout_s)
+            if p.returncode == 1:
+                lines = [l for l in p.stdout.splitlines() if l.startswith("VIOLATION")]
+                return "caught", f"(--only {fam}) " + "; ".join(l.split("obligation=")[-1] for l in lines[:3])
         p = subprocess.run([os.path.join(VERIF, "check"), prop, "--tier", "quick"], capture_output=True, text=True, env=env, timeout=timeout_s)
         lines = [l for l in p.stdout.splitlines() if l.startswith("VIOLATION")]
         if p.returncode == 1:
